@@ -47,6 +47,7 @@ type StreamFacts struct {
 	Handoff      uint64
 	Start        uint64
 	CursorsOK    int
+	LateDropped  int
 }
 
 // CheckStream applies the stream clauses to one recorded request.
@@ -70,9 +71,7 @@ func CheckStream(res *Result, ref *Ref, prefixOnly bool) (out []Finding, facts S
 	start, handoff := sess.ResolvedStartBlock, sess.LinearHandoffBlock
 	facts.Start, facts.Handoff = start, handoff
 	stop := spec.Stop
-	if res.Late > 0 {
-		out = append(out, finding("stream/message-after-return", "%d messages were sent after the call returned (err=%v)", res.Late, res.Err))
-	}
+	facts.LateDropped = res.Late // attempts after the call returned are dropped by the real handler: observation only
 	data := res.Data()
 	facts.Data = len(data)
 	seen := map[uint64]int{}
